@@ -7,6 +7,8 @@
 (*   new      i, kind "int" (hi,lo limbs of seed mod 2^30) | "bytes" (bs)  *)
 (*   random   i, ret = <<hi,lo>> limbs of u*2^30 (exact in a float)        *)
 (*   randoms  i, n, ret = sequence of limbs                                *)
+(*   uniforms i, n, lo, hi (bounds in units of 1/Q), ret = limbs of the   *)
+(*            normalised values (x-min)/(max-min)*2^30, cell = floor(Q*x)  *)
 (*   randint  i, a, b, ret        randints i, n, a, b, ret                 *)
 (*   shuffle  i, n, ret = the permutation of 0..n-1                        *)
 (*   choice   i, n, ret           choicew i, w (int weights), sq, rm, rw   *)
@@ -31,6 +33,9 @@ TrEvent == LET i == Ev.i IN
   \/ Ev.op = "new" /\ Ev.kind = "bytes" /\ New(i, SeedOfBytes(Ev.bs))
   \/ Ev.op = "random"  /\ inst[i].live /\ Limbs(Ev.ret) = Step(S(i)) /\ Adv(i, 1)
   \/ Ev.op = "randoms" /\ inst[i].live /\ Ev.n = Len(Ev.ret) /\ (\A k \in 1..Ev.n : Limbs(Ev.ret[k]) = StepN(S(i), k)) /\ Adv(i, Ev.n)
+  \/ Ev.op = "uniforms" /\ inst[i].live /\ Ev.n = Len(Ev.ret) /\ Ev.n = Len(Ev.cell) /\ Adv(i, Ev.n)
+     /\ \A k \in 1..Ev.n : LET s2 == StepN(S(i), k) IN
+           Limbs(Ev.ret[k]) = s2 /\ Ev.cell[k] = UniformCell(s2, Ev.lo, Ev.hi) /\ Ev.cell[k] >= Ev.lo /\ Ev.cell[k] < Ev.hi
   \/ Ev.op = "randint" /\ inst[i].live /\ Ev.ret = RandInt(S(i), Ev.a, Ev.b) /\ Ev.ret >= Ev.a /\ Ev.ret <= Ev.b /\ Adv(i, 1)
   \/ Ev.op = "randints" /\ inst[i].live /\ Ev.ret = RandInts(S(i), Ev.n, Ev.a, Ev.b) /\ Adv(i, Ev.n)
   \/ Ev.op = "shuffle" /\ inst[i].live /\ Ev.ret = Shuffle(S(i), Ev.n) /\ Adv(i, ShuffleDraws(Ev.n))
